@@ -3,7 +3,7 @@ from __future__ import annotations
 
 import ast
 
-from ..model import (AnalysisError, U, Defs, FuncNode, calls_in, call_name, walk_fn, kwarg, enclosing,
+from ..model import (AnalysisError, U, Defs, FuncNode, call_name, walk_fn, kwarg, enclosing,
                      enclosing_stmt, parents, short, fn_of, always_exits as common_always_exits)
 from ..symex import Symex, Obj, ClassRef, Ext, _freeze
 from ..terms import T, sym, show, subterms, calls, strip, expand_products, args_of, t_cmp, t_not
@@ -711,14 +711,30 @@ class SetOrder:
             return []
         self.seen.add(id(loop))
         out = []
-        stored = set()
-        for t in ast.walk(loop.target):
-            if isinstance(t, ast.Name):
-                stored.add(t.id)
+        targets = {t.id for t in ast.walk(loop.target) if isinstance(t, ast.Name)}
         body = ast.Module(body=list(loop.body) + list(loop.orelse), type_ignores=[])
-        for n in ast.walk(body):
-            if isinstance(n, ast.Name) and isinstance(n.ctx, ast.Store):
-                stored.add(n.id)
+        # names whose value depends on the element of the current iteration
+        stored = set(targets)
+        changed = True
+        while changed:
+            changed = False
+            for n in ast.walk(body):
+                tg, val = [], None
+                if isinstance(n, ast.Assign):
+                    tg, val = n.targets, n.value
+                elif isinstance(n, (ast.AugAssign, ast.AnnAssign)):
+                    tg, val = [n.target], n.value
+                elif isinstance(n, ast.NamedExpr):
+                    tg, val = [n.target], n.value
+                elif isinstance(n, (ast.For, ast.comprehension)):
+                    tg, val = [n.target], n.iter
+                if val is None or not ({x.id for x in ast.walk(val) if isinstance(x, ast.Name)} & stored):
+                    continue
+                for t in tg:
+                    for x in ast.walk(t):
+                        if isinstance(x, ast.Name) and isinstance(x.ctx, ast.Store) and x.id not in stored:
+                            stored.add(x.id)
+                            changed = True
         for n in ast.walk(body):
             if isinstance(n, ast.Return):
                 if n.value is not None and not isinstance(n.value, ast.Constant) and ({x.id for x in ast.walk(n.value) if isinstance(x, ast.Name)} & stored):
@@ -755,7 +771,7 @@ class SetOrder:
                         if isinstance(x, ast.Attribute) and isinstance(x.ctx, ast.Store):
                             out.append((n, f"attribute .{x.attr} overwritten per element"))
         # a plain local assigned in the body and read after the loop holds the value of the last element
-        last = self._used_after(loop, stored - {x.id for x in ast.walk(loop.target) if isinstance(x, ast.Name)}, plain_only=True)
+        last = self._used_after(loop, stored - targets, plain_only=True)
         if last:
             out.append((loop, f"`{sorted(last)[0]}` holds the value of the last iteration after the loop"))
         return out
@@ -1750,24 +1766,23 @@ def r19d(ctx):
               "TensorNames is a frozen slotted dataclass", f"TensorNames is declared with dataclass options {opts}: its fields can be "
               "rebound at run time", key="frozen")
     meta = [sx.ev(k.value) for k in cls.keywords if k.arg == "metaclass"]
-    ctx.check(rule, cls, len(meta) == 1 and isinstance(meta[0], (ClassRef, Ext)) and repr(meta[0]).rstrip(">").split()[-1].split(".")[-1] == "Singleton",
+    mname = [m_.short if isinstance(m_, ClassRef) else m_.name.split(".")[-1] if isinstance(m_, Ext) else None for m_ in meta]
+    ctx.check(rule, cls, mname == ["Singleton"],
               "TensorNames is a singleton", "TensorNames lost the Singleton metaclass", key="singleton")
-    inst = sx.global_name(mod, "tensor_names")
-    ok = isinstance(inst, T) and inst.op == "call" and inst.args[0] in ("_from_config", "TensorNames._from_config") and not args_of(inst)
+    # the module-level instance, evaluated with every function of the module looked into: TensorNames(**<loaded json>)
     n_bind = sum(1 for st in mod.tree.body for t in (st.targets if isinstance(st, ast.Assign) else [st.target] if isinstance(st, (ast.AnnAssign, ast.AugAssign)) else [])
                  for x in ast.walk(t) if isinstance(x, ast.Name) and x.id == "tensor_names")
-    ctx.check(rule, mod.tree, ok and n_bind == 1, "one instance built from the config file",
-              f"the module level instance is {show(inst)} (bound {n_bind} times)", key="instance")
-    fc = ctx.model.fn("tensor_names:TensorNames._from_config")
-    outs = Symex(ctx.model, inline=lambda q: False, what="_from_config").run(fc, lambda: {})
-    ok = len(outs) == 1 and outs[0].kind == "return"
-    v = outs[0].value if ok else None
-    a = args_of(v) if isinstance(v, T) and v.op == "call" and v.args[0] == "TensorNames" else None
+    sxi = Symex(ctx.model, inline=lambda q: q.startswith("tensor_names:"), what="tensor_names instance")
+    sxi.frames, sxi.module, sxi.prefix, sxi.decisions, sxi.facts, sxi.path, sxi.effects, sxi.steps, sxi.depth = [{}], mod, [], [], {}, [], [], 0, 0
+    inst = sxi.global_name(mod, "tensor_names")
+    a = args_of(inst) if isinstance(inst, T) and inst.op == "call" and inst.args[0] == "TensorNames" else None
     src = a.get("**") if a else None
-    loads = [c for c in calls(src)] if src is not None else []
-    ok = a is not None and set(a) == {"**"} and any((c.args[0] if c.op == "call" else c.args[1]) in ("load", "json.load", "loads") for c in loads)
-    ctx.check(rule, fc, ok, "all fields taken from the JSON file", f"_from_config returns {show(v)}: not TensorNames(**<loaded json>)",
-              key="from config")
+    loads = [x for x in calls(src)] if src is not None else []
+    from_json = a is not None and set(a) == {"**"} and any((x.args[0] if x.op == "call" else x.args[1]).split(".")[-1] in ("load", "loads") for x in loads)
+    ctx.check(rule, mod.tree, n_bind == 1 and a is not None, "one module-level TensorNames instance",
+              f"the module level instance evaluates to {show(inst)[:200]} (bound {n_bind} times)", key="instance")
+    ctx.check(rule, mod.tree, from_json, "all fields of the instance are taken from the JSON file",
+              f"the instance evaluates to {show(inst)[:200]}: not TensorNames(**<loaded json>)", key="from config")
     df = ctx.model.fn("tensor_names:TensorNames.defaults")
 
     def fields_hook(s, a_, kw_):
